@@ -15,6 +15,7 @@ REAL = "real code from the /repo working tree"
 PROPERTIES = {}
 NOT_APPLICABLE = {}
 ENGINE_KINDS = {
+    "directed": "directed workloads for the monitors of C07 / C08 / C17 (all labelled trees up to 6 or 7 atoms by run index, random graphs, calculators reused on unrelated configurations, closed-form relations of rotation matrices and frames): pure functions, seeded generation / enumeration only",
     "cli": "gaddlemaps._cli.main() in-process under the random seam vs the library workflow; sort_molecules / --auto with scheduler-chosen file-list and set-iteration orders (set seam on classify_files); the unmodified CLI in real subprocesses under different PYTHONHASHSEED values",
     "pipeline": "System + Manager + ExchangeMap + GroFile writer on generated multi-species worlds (real files, file seam on): life-cycle histories of add_end_molecule / calculate_exchange_maps / align_molecules / extrapolate_system incl. premature extrapolations; output taken from the file seam",
     "routing": "Alignment.align_molecules with the optimiser entry point replaced by a recording stub; Manager.align_molecules with Alignment.align_molecules replaced by a recording stub (real files); restraint guessers by enumeration",
@@ -229,29 +230,39 @@ _reg("C06", engine="mc", level="exploration",
      schedule_dimension="the random stream (seed + override script) that decides every step of the search; knob values",
      probes=["accepted_worse_proposal", "rigid_only_run", "new_minimum", "rejected_proposal"] )
 
-_reg("C07", engine="mc", level="exploration",
-     runs={"quick": 2400, "thorough": 160000}, block=8,
-     technique="in-situ monitor on every single-atom move and random displacement the Monte-Carlo loop makes under the random seam",
-     level_text=("Every move_mol_atom / find_atom_random_displ call made by the simulated Monte-Carlo trajectories is checked: input "
+_reg("C07", level="exploration",
+     parts=[{"engine": "mc", "runs": {"quick": 1600, "thorough": 120000}, "block": 8},
+            {"engine": "directed", "runs": {"quick": 1000, "thorough": 40000}, "block": 10}],
+     technique="in-situ monitor on every single-atom move and random displacement the Monte-Carlo loop makes under the random seam; the same monitor fed with all labelled trees up to 6 (thorough: 7) atoms and random trees / cyclic graphs",
+     level_text=("(1) Every move_mol_atom / find_atom_random_displ call made by the simulated Monte-Carlo trajectories is checked: input "
                  "unmodified, output finite, the chosen atom displaced by exactly the drawn vector, every bond of the tree at its "
-                 "tabulated length (1e-9 relative), displacement perpendicular to the bond / neighbour line / neighbour plane."),
-     level_note=_MC_NOTE,
-     rule=_MC_RULE,
+                 "tabulated length (1e-9 relative), displacement perpendicular to the bond / neighbour line / neighbour plane.  "
+                 "(2) Directed: the first runs enumerate EVERY labelled tree on 2..6 atoms (thorough: ..7, 16 807 trees) by Pruefer "
+                 "index with every atom moved, generic coordinates, displacements 0.01..10 nm and bond tables that agree with the "
+                 "geometry or are off by +-30 %; further runs use random trees and cyclic graphs up to 60 atoms with explicit and "
+                 "random (seam-drawn) displacements; for cyclic graphs the exactly restored bonds must reach every atom from the "
+                 "moved one (traversal-agnostic)."),
+     level_note=_MC_NOTE + "  The directed half is a pure function of its input: the harness contributes enumeration / seeded generation and replay only.",
+     rule=_MC_RULE + "; directed runs: one batch of 12 enumerated trees (all moved atoms) or one random graph with 8 moves",
      components={"Alignment.align_molecules": REAL, "_backend._minimize_molecules (python engine)": REAL,
                  "Chi2Calculator / accept_metropolis / move_mol_atom / find_atom_random_displ / rotation_matrix": REAL + " (wrapped by call-through monitors)",
                  "numpy.random.{choice,normal,uniform,rand,randint}": "random seam: numpy's global RandomState seeded per run + override script",
                  "cython backend": "not installed; the pure-python engine is what runs",
                  "Molecule/MoleculeTop": REAL + " (MoleculeTop built without a file)"},
-     schedule_dimension="the random stream feeding atom choice and displacement",
-     probes=["displacement_three_neighbours"])
+     schedule_dimension="the random stream feeding atom choice and displacement (mc part); none for the directed part",
+     probes=["displacement_three_neighbours", "enumerated_tree_batch", "cyclic_move", "bond_table_disagrees_with_geometry"])
 
-_reg("C08", engine="mc", level="exploration",
-     runs={"quick": 2400, "thorough": 160000}, block=8,
-     technique="in-situ monitor comparing every chi2 evaluation made along simulated Monte-Carlo trajectories with a naive re-statement of the definition",
+_reg("C08", level="exploration",
+     parts=[{"engine": "mc", "runs": {"quick": 1600, "thorough": 120000}, "block": 8},
+            {"engine": "directed", "runs": {"quick": 1200, "thorough": 60000}, "block": 10}],
+     technique="in-situ monitor comparing every chi2 evaluation made along simulated Monte-Carlo trajectories with a naive re-statement of the definition; directed: calculators reused on unrelated configurations, rigid-motion and relabelling invariance",
      level_text=("Every evaluation of the overlap measure made by the loop -- on configurations reached by the search, far from the "
                  "one the calculator was built with, for empty / partial / duplicated / all-fixed-atoms restraint lists -- is "
                  "compared (1e-9 relative) with an independent evaluation written from the statement; non-negativity; the "
-                 "argument must not be modified."),
+                 "argument must not be modified.  Directed: calculators for 1..40 x 1..25 atoms and empty / partial / duplicated-"
+                 "fixed-atom / duplicated-pair / every-fixed-atom restraint lists are built once and evaluated on 10 unrelated "
+                 "configurations each (incl. mobile atoms exactly on fixed atoms), against a pure-python double loop, plus invariance "
+                 "under a common rigid motion and under a consistent relabelling of atoms and restraints."),
      level_note=_MC_NOTE + "  Evaluations where two mobile atoms are equidistant (1e-9) from a fixed atom are skipped (penalty exponent undefined).",
      rule=_MC_RULE,
      components={"Alignment.align_molecules": REAL, "_backend._minimize_molecules (python engine)": REAL,
@@ -259,7 +270,7 @@ _reg("C08", engine="mc", level="exploration",
                  "numpy.random.{choice,normal,uniform,rand,randint}": "random seam: numpy's global RandomState seeded per run + override script",
                  "cython backend": "not installed; the pure-python engine is what runs",
                  "Molecule/MoleculeTop": REAL + " (MoleculeTop built without a file)"},
-     schedule_dimension="the random stream that drives the calculator to new configurations",
+     schedule_dimension="the random stream that drives the calculator to new configurations (mc part); none for the directed part",
      probes=["chi2_off_construction_config", "chi2_penalty_k>0"])
 
 _reg("C09", engine="mc", level="exploration",
@@ -285,15 +296,18 @@ _reg("C09", engine="mc", level="exploration",
 
 _reg("C17", level="exploration",
      parts=[{"engine": "xmap", "runs": {"quick": 600, "thorough": 30000}, "block": 8},
-            {"engine": "mc", "runs": {"quick": 300, "thorough": 15000}, "block": 4}],
-     technique="in-situ monitors on every rotation matrix the simulated Monte-Carlo loop uses (axes/angles from the random seam incl. injected extremes) and on every local frame the exchange-map histories build",
+            {"engine": "mc", "runs": {"quick": 300, "thorough": 15000}, "block": 4},
+            {"engine": "directed", "runs": {"quick": 600, "thorough": 40000}, "block": 20}],
+     technique="in-situ monitors on every rotation matrix the simulated Monte-Carlo loop uses (axes/angles from the random seam incl. injected extremes) and on every local frame the exchange-map histories build; directed closed-form relations",
      level_text=("Every matrix rotation_matrix returns during mc runs (orthogonal, det +1, axis fixed, trace 1 + 2cos(theta), to "
                  "1e-12) and every frame calcule_base returns during xmap runs (right-handed orthonormal to 1e-12, first vector "
                  "along p2 - p0, third normal to the plane when not collinear, origin p0, inputs unmodified), for generic, exactly "
-                 "collinear (axes, diagonals, integer directions), numerically collinear and coincident-middle-point triples."),
-     level_note=("The closed-form relations (R(-t) = R(t)^T, R(a)R(b) = R(a+b), independence of the axis length) are pure functions "
-                 "and are checked by the directed part.  Triples with an angle in [1e-9, 1e-3) rad are not judged."),
-     rule="runs of the xmap and mc engines; non-trivial = the run completed; distinct = distinct behaviour signatures of those engines",
+                 "collinear (axes, diagonals, integer directions), numerically collinear and coincident-middle-point triples.  "
+                 "Directed: axes of norm 1e-6..1e6 and angles in [-20, 20] with R(-t) = R(t)^T, R(a)R(b) = R(a+b) and independence of "
+                 "the axis length; point triples at scales 2^-10..2^10 of every kind above, given as lists or arrays."),
+     level_note=("The directed part checks pure functions: seeded generation against closed-form oracles, nothing more.  Triples "
+                 "with an angle in [1e-9, 1e-3) rad are not judged; tolerance 1e-12 (4e-12 for the product relation)."),
+     rule="runs of the xmap and mc engines plus directed batches of 40 matrices / 40 frames; non-trivial = the run completed; distinct = distinct behaviour signatures",
      components={"rotation_matrix": REAL, "calcule_base": REAL, "callers": "ExchangeMap and the MC loop, real code"},
      schedule_dimension="call histories on a map; the random stream of the MC loop",
      probes=["collinear_frame", "coincident_middle_point"])
